@@ -511,6 +511,8 @@ class AddressBase(Base):
         regex = f"^{self._cmd_addrgroup()} (.+)"
         addrgroup = h.findall1(regex, line)
         h.check_name(addrgroup)
+        if addrgroup != self._addrgroup:
+            self._items = []  # members of another address group
         self._type = "addrgroup"
         self._addrgroup = addrgroup
         self._wildcard = None
